@@ -122,12 +122,23 @@ pub fn generate(rng: &mut Rng, thorough: bool) -> Vec<String> {
                     2 => v.push(format!("cal_law {cal} {y} {m} {d}")),
                     _ => v.push(format!("cal_rt {cal} {y} {m} {d}")),
                 }
+            } else if cal == "hebrew" {
+                // the library's Hebrew arithmetic is modelled (Model/Hebrew.lean): fields are compared, not only the laws
+                match rng.below(4) {
+                    0 => v.push(format!("cal_law {cal} {y} {m} {d}")),
+                    1 => v.push(format!("cal_rt {cal} {y} {m} {d}")),
+                    2 => v.push(format!("cal_fields {cal} {y} {m} {d}")),
+                    _ => v.push(format!("cal_next {cal} {y} {m} {d}")),
+                }
             } else {
                 match rng.below(2) {
                     0 => v.push(format!("cal_law {cal} {y} {m} {d}")),
                     _ => v.push(format!("cal_rt {cal} {y} {m} {d}")),
                 }
             }
+        }
+        if cal == "hebrew" {
+            hebrew_lines(rng, thorough, &mut v);
         }
         // every era alias of every calendar (and non-aliases) with era years on both sides of each era's bounds
         if cal != "iso8601" {
@@ -172,6 +183,18 @@ pub fn generate(rng: &mut Rng, thorough: bool) -> Vec<String> {
             }
         }
     }
+    // changing the calendar of a value keeps its ISO date (and time / instant): every ordered pair of calendars, for a
+    // plain date, a plain date-time and a zoned date-time whose first calendar is not ISO
+    for c1 in CALENDARS {
+        for c2 in CALENDARS {
+            for kind in ["pd", "pdt", "zdt"] {
+                if thorough || rng.chance(1, 2) {
+                    let (y, m, d) = *rng.pick(&[(2024i128, 2i128, 29i128), (1989, 1, 7), (2019, 5, 1), (1900, 3, 1), (2050, 12, 31), (1970, 1, 1)]);
+                    v.push(format!("cal_wc {kind} {c1} {c2} {y} {m} {d}"));
+                }
+            }
+        }
+    }
     // identifiers: canonical, upper/mixed case, aliases, annotated strings, non-calendars
     for c in CALENDARS {
         v.push(format!("cal_id {}", hex(c.as_bytes())));
@@ -185,6 +208,65 @@ pub fn generate(rng: &mut Rng, thorough: bool) -> Vec<String> {
         v.push(format!("cal_id {}", hex(bad.as_bytes())));
     }
     v
+}
+
+/// Hebrew calendar: the three years of Temporal's range whose molad of Tishrei falls exactly on Saturday 18 h 0 p
+/// (-114910, 75795, 193152 AM: the library's new year is a week early there - known finding), the days where the
+/// library's floating-point year estimate is a whole number, runs of consecutive days across year ends and leap
+/// months, and dates from (year, month code, day).
+fn hebrew_lines(rng: &mut Rng, thorough: bool, v: &mut Vec<String>) {
+    let cal = "hebrew";
+    // coded new years of the exceptional years, of the years before, and the ends of the years after
+    for base in [25_590_919i128, 25_590_541, 25_590_919 + 353, 68_455_167, 68_454_820, 68_455_167 + 383, -44_063_484, -44_063_831, -44_063_484 + 353] {
+        for k in -12..=12i128 {
+            if !thorough && k % 2 != 0 && k.abs() > 8 { continue; }
+            let (y, m, d) = ymd_of(base + k);
+            v.push(format!("cal_fields {cal} {y} {m} {d}"));
+            v.push(format!("cal_law {cal} {y} {m} {d}"));
+            if k % 3 == 0 { v.push(format!("cal_rt {cal} {y} {m} {d}")); }
+        }
+    }
+    // the estimate 1 + (day - epoch) / (35975351/98496) is a whole number at epoch + k * 35975351
+    for k in -2..=2i128 {
+        for e in -2..=2i128 {
+            let (y, m, d) = ymd_of(-2_092_590 + k * 35_975_351 + e);
+            v.push(format!("cal_fields {cal} {y} {m} {d}"));
+            v.push(format!("cal_next {cal} {y} {m} {d}"));
+        }
+    }
+    // runs of consecutive days (every year end, every month end, both Adars within two years)
+    for _ in 0..(if thorough { 12 } else { 3 }) {
+        let start = match rng.below(3) { 0 => rng.range(15_000, 25_000), 1 => rng.range(-100_000_000, 99_999_000), _ => rng.range(-800_000, 800_000) };
+        for k in 0..800i128 {
+            let (y, m, d) = ymd_of(start + k);
+            v.push(format!("cal_next {cal} {y} {m} {d}"));
+        }
+    }
+    // from (era / year, month code / month, day)
+    let codes = ["M01", "M02", "M03", "M04", "M05", "M05L", "M06", "M06L", "M07", "M08", "M09", "M10", "M11", "M12", "M13", "M00L", "M04L"];
+    for _ in 0..(if thorough { 6000 } else { 1200 }) {
+        let year = match rng.below(6) {
+            0 => rng.range(5700, 5800),
+            1 => rng.range(-268_000, 279_000),
+            2 => *rng.pick(&[75_794i128, 75_795, 75_796, 193_151, 193_152, 193_153, -114_911, -114_910, -114_909]),
+            3 => *rng.pick(&[300_000i128, 300_001, -300_000, -300_001, 0, 1, -1, 279_517, 279_518, -268_058, -268_059]),
+            _ => rng.range(1, 10_000),
+        };
+        let (era, ey, yr) = match rng.below(6) {
+            0 => ("hebrew".to_string(), year.to_string(), "-".to_string()),
+            1 => ("am".to_string(), year.to_string(), "-".to_string()),
+            2 => (rng.pick(&["ce", "AM", "islamic"]).to_string(), year.to_string(), "-".to_string()),
+            _ => ("-".to_string(), "-".to_string(), year.to_string()),
+        };
+        let (month, code) = match rng.below(5) {
+            0 => (rng.range(0, 14).to_string(), "-".to_string()),
+            1 => { let c = *rng.pick(&codes); (rng.range(1, 13).to_string(), c.to_string()) }
+            _ => ("-".to_string(), rng.pick(&codes).to_string()),
+        };
+        let day = *rng.pick(&[1i128, 2, 15, 28, 29, 30, 30, 31, 0]);
+        let ov = rng.pick(&["constrain", "reject"]);
+        v.push(format!("cal_hfrom {cal} {era} {ey} {yr} {month} {code} {day} {ov}"));
+    }
 }
 
 fn partial(cal: &Calendar, era: &str, ey: &str, year: &str, month: &str, code: &str, day: &str) -> Result<PartialDate, TemporalError> {
@@ -374,7 +456,30 @@ pub fn eval(t: &[&str]) -> Option<String> {
             }),
             |ym| ym.to_ixdtf_string(temporal_rs::options::DisplayCalendar::Never),
         ),
-        "cal_from" => render(
+        "cal_wc" => {
+            // cal_wc <pd|pdt|zdt> <cal1> <cal2> y m d: a value in cal1, then with_calendar(cal2): the ISO fields stay
+            let (c1, c2) = match (Calendar::from_str(t[2]), Calendar::from_str(t[3])) { (Ok(a), Ok(b)) => (a, b), _ => return Some("err range".into()) };
+            let (y, m, d) = (i(t[4]) as i32, i(t[5]) as u8, i(t[6]) as u8);
+            let r: Result<String, TemporalError> = match t[1] {
+                "pd" => PlainDate::try_new(y, m, d, c1).and_then(|a| a.with_calendar(c2.clone()).map(|b| (a, b))).map(|(a, b)| {
+                    let (x, z) = ((a.iso_year(), a.iso_month(), a.iso_day()), (b.iso_year(), b.iso_month(), b.iso_day()));
+                    if x == z && x == (y, m, d) && b.calendar().identifier() == c2.identifier() { "same".into() } else { format!("differ {x:?} | {z:?}") }
+                }),
+                "pdt" => temporal_rs::PlainDateTime::try_new(y, m, d, 13, 14, 15, 16, 17, 18, c1).and_then(|a| a.with_calendar(c2.clone()).map(|b| (a, b))).map(|(a, b)| {
+                    let f = |v: &temporal_rs::PlainDateTime| (v.iso_year(), v.iso_month(), v.iso_day(), v.hour(), v.minute(), v.second(), v.millisecond(), v.microsecond(), v.nanosecond());
+                    if f(&a) == f(&b) && f(&a) == (y, m, d, 13, 14, 15, 16, 17, 18) && b.calendar().identifier() == c2.identifier() { "same".into() } else { format!("differ {:?} | {:?}", f(&a), f(&b)) }
+                }),
+                _ => {
+                    let ns = day_of(y, m, d) * 86_400_000_000_000 + 47_655_016_017_018;
+                    let zone = temporal_rs::TimeZone::try_from_str("+05:30").ok()?;
+                    temporal_rs::ZonedDateTime::try_new(ns, c1, zone).and_then(|a| a.with_calendar(c2.clone()).map(|b| (a, b))).map(|(a, b)| {
+                        if a.epoch_nanoseconds().as_i128() == b.epoch_nanoseconds().as_i128() && b.epoch_nanoseconds().as_i128() == ns && b.calendar().identifier() == c2.identifier() { "same".into() } else { format!("differ {} | {}", a.epoch_nanoseconds().as_i128(), b.epoch_nanoseconds().as_i128()) }
+                    })
+                }
+            };
+            render(r, |s| s)
+        }
+        "cal_from" | "cal_hfrom" => render(
             Calendar::from_str(t[1]).and_then(|cal| {
                 let p = partial(&cal, t[2], t[3], t[4], t[5], t[6], t[7])?;
                 PlainDate::from_partial(p, Some(overflow(t[8])))
